@@ -35,8 +35,9 @@ class Instance:
     fenc/aenc in {"N","L"}: "N" frequency = j*fscale, amplitude = level*ascale;
     "L" frequency = exp(j/q), amplitude = exp(level/q)."""
 
-    def __init__(self, nf, fenc="N", aenc="N", fscale=0.02, q=4.0, ascale=1.0):
+    def __init__(self, nf, fenc="N", aenc="N", fscale=0.02, q=4.0, ascale=1.0, azimuths=None):
         self.nf, self.fenc, self.aenc, self.fscale, self.q, self.ascale = nf, fenc, aenc, fscale, q, ascale
+        self.azimuths = azimuths
         j = np.arange(1, nf + 1, dtype=float)
         self.freq = j * fscale if fenc == "N" else np.exp(j / q)
         self.dist_f = "normal" if fenc == "N" else "lognormal"
@@ -174,7 +175,7 @@ class Real:
             trads.append(self.h.HvsrTraditional(inst.freq, rows, meta={"processing_method": "traditional"}))
         if self.na == 1:
             return trads[0]
-        return self.h.HvsrAzimuthal(trads, AZIMUTHS[:self.na], meta={"processing_method": "azimuthal"})
+        return self.h.HvsrAzimuthal(trads, (inst.azimuths or AZIMUTHS)[:self.na], meta={"processing_method": "azimuthal"})
 
     def inner(self, obj):
         return [obj] if self.na == 1 else obj.hvsrs
